@@ -832,10 +832,10 @@ defprop("C09", "other", {"R", "E", "X", "A"}, c09_cases, oracle=oracles.o_entiti
 defprop("C10", "other", None, c10_cases, oracle=oracles.o_total, extra=c10_extra,
         rule="every battery (links, axes, iterators with all F/B words <= 4 and nth/len scripts, lookups, identity, text_pos_at for offsets 0..len+2, Debug/Display into a sink) on enumerated and random documents",
         technique="Coq model of the read API (panic sites explicit) + correspondence + isolated scale runs")
-defprop("C11", "other", {"R", "N", "AX", "AE", "AH", "AT", "AR", "D"}, lambda t, s: api_docs(t, s, "ncad"), oracle=oracles.o_navigation,
+defprop("C11", "proof", {"R", "N", "AX", "AE", "AH", "AT", "AR", "D"}, lambda t, s: api_docs(t, s, "ncad"), oracle=oracles.o_navigation,
         rule="every node of enumerated token-string documents, random documents and fixtures x every axis, element variant, text/tail, and every F/B word <= 4 plus nth/len scripts on the four double-ended iterators",
         technique="Coq proof that the iterator state machines implement the deque specification + correspondence")
-defprop("C12", "other", {"R", "L", "LQ"}, lambda t, s: api_docs(t, s, "ncl"), oracle=oracles.o_lookups,
+defprop("C12", "proof", {"R", "L", "LQ"}, lambda t, s: api_docs(t, s, "ncl"), oracle=oracles.o_lookups,
         rule="every node x query names {present pairs, same local with no / other / empty namespace, absent, reserved URIs}, prefixes and URIs in scope, attribute equality matrix",
         technique="Coq proof of the lookup functions against enumeration + correspondence")
 defprop("C13", "other", {"R", "P", "PA"}, c13_cases_with_shift, oracle=oracles.o_ranges, relation=c13_relation,
@@ -851,7 +851,7 @@ defprop("C15", "other", {"R", "N", "E"}, c15_cases, oracle=None, relation=c15_re
 defprop("C16", "other", {"R", "E", "N", "Q", "A", "S", "K", "C", "X", "P", "PA"}, c16_cases, oracle=None, relation=c16_relation,
         rule="inputs x {allow_dtd true, false, Document::parse}; DOCTYPE forms at every prolog position and DOCTYPE-like text inside comments/CDATA/PIs/values",
         technique="Coq proof of the option relation + correspondence")
-defprop("C17", "other", {"R", "OG", "OC", "OS", "OH"}, lambda t, s: api_docs(t, s, "no"), oracle=oracles.o_identity,
+defprop("C17", "proof", {"R", "OG", "OC", "OS", "OH"}, lambda t, s: api_docs(t, s, "no"), oracle=oracles.o_identity,
         rule="two simultaneously live parses of each document: get_node for 0..n+2 and u32::MAX-1, eq/cmp/partial_cmp matrix over 12 nodes, sort of all nodes, HashSet",
         technique="Coq proof of the order axioms on (document, id) keys + correspondence")
 defprop("C18", "other", {"R", "B"}, c18_cases, oracle=oracles.o_borrowed,
